@@ -47,6 +47,18 @@ def model_outputs(kind, lines):
     return out[1:-1]
 
 
+def check_expectations(sc, impl):
+    """Scenarios that state what must be observed (regular expressions over the observer lines) instead of comparing with the
+    sequential model."""
+    res = impl["results"]
+    nobs = len(sc.get("observe", []))
+    obs = [r["result"] for r in res[len(res) - nobs:]] if nobs else []
+    for idx, rx, why in sc["expect"]:
+        if idx >= len(obs) or not re.search(rx, obs[idx]):
+            return False, {"why": "%s (observed: %s)" % (why, obs[idx] if idx < len(obs) else "<nothing>"), "results": res}
+    return True, {"matches_order": "expectations"}
+
+
 def check_scenario(sc, impl):
     """Returns (ok, detail). impl is the harness' result object for this scenario."""
     if impl.get("stuck"):
@@ -58,6 +70,8 @@ def check_scenario(sc, impl):
     timeouts = [r for r in res if r.get("result", "").startswith("await-timeout")]
     if timeouts:
         return False, {"why": "a thread never reached its park point (machinery or changed code shape)", "results": res}
+    if "expect" in sc:
+        return check_expectations(sc, impl)
     runs = [r for r in res if "line" in r]
     setup_res = [r["result"] for r in runs[:nsetup]]
     obs_res = [r["result"] for r in runs[len(runs) - nobs:]] if nobs else []
@@ -101,6 +115,12 @@ SCENARIOS = {
         dict(name="update-delete-vs-wcas", setup=kv_setup(), threads={"A": "update c0 k exp=0 cb=del"},
              script=[{"do": "park", "thread": "A", "point": "update.afterread"}, {"do": "spawn", "thread": "A", "line": "update c0 k exp=0 cb=del"},
                      {"do": "await", "thread": "A", "point": "update.afterread"}, {"do": "run", "line": 'wcas c0 k exp=0 cas=2097152 opt=0 v={"w":3}'},
+                     {"do": "release", "thread": "A"}, {"do": "join", "thread": "A"}],
+             observe=["rb c0 k " + N]),
+        # a callback that decides from what it is shown: it may only delete the version it saw
+        dict(name="update-conditional-delete-vs-set", setup=kv_setup(), threads={"A": 'update c0 k exp=0 cb=delif:{"a":1,"b":2}'},
+             script=[{"do": "park", "thread": "A", "point": "update.afterread"}, {"do": "spawn", "thread": "A", "line": 'update c0 k exp=0 cb=delif:{"a":1,"b":2}'},
+                     {"do": "await", "thread": "A", "point": "update.afterread"}, {"do": "run", "line": 'set c0 k exp=0 raw=0 v={"s":2}'},
                      {"do": "release", "thread": "A"}, {"do": "join", "thread": "A"}],
              observe=["rb c0 k " + N]),
         dict(name="incr-vs-incr", setup=["clock t=2097152", "set c0 n exp=0 raw=0 v=10", "clock t=3145728"],
@@ -150,7 +170,42 @@ SCENARIOS = {
                      {"do": "release", "thread": "A"}, {"do": "join", "thread": "A"}],
              observe=["drain f0"]),
     ],
+    "C16": [
+        dict(name="terminator-closed-in-the-middle-of-a-dump", kind="mem",
+             setup=["clock t=2097152", 'set c0 k0 exp=0 raw=0 v={"w":0}', "clock t=3145728", 'set c0 k1 exp=0 raw=0 v={"w":1}',
+                    "clock t=4194304", 'set c0 k2 exp=0 raw=0 v={"w":2}', "clock t=5242880", 'set c0 k3 exp=0 raw=0 v={"w":3}',
+                    "clock t=6291456", 'set c0 k4 exp=0 raw=0 v={"w":4}'],
+             threads={},
+             script=[{"do": "claim", "thread": "D", "point": "feed.deliver"}, {"do": "park", "thread": "D", "point": "feed.deliver", "nth": 2},
+                     {"do": "spawn", "thread": "F", "line": "feed f0 c0 bf=0 dump=1"},
+                     {"do": "await", "thread": "D", "point": "feed.deliver"},
+                     {"do": "spawn", "thread": "S", "line": "stopfeed f0"}, {"do": "sleep", "ms": 60},
+                     {"do": "release", "thread": "D"}, {"do": "join", "thread": "S"}, {"do": "join", "thread": "F"}],
+             observe=["feedstat f0"],
+             expect=[(0, r"afterterm=[01] afterdone=0 done=true", "after its terminator was closed a dump feed delivered more than the one event already pulled, or did not end")]),
+        dict(name="terminator-closed-while-a-live-feed-has-events-queued", kind="mem",
+             setup=["feed f0 c0 bf=none", "clock t=2097152"],
+             threads={},
+             script=[{"do": "claim", "thread": "D", "point": "feed.deliver"}, {"do": "park", "thread": "D", "point": "feed.deliver", "nth": 1},
+                     {"do": "run", "line": 'set c0 k0 exp=0 raw=0 v={"w":0}'}, {"do": "run", "line": 'set c0 k1 exp=0 raw=0 v={"w":1}'},
+                     {"do": "run", "line": 'set c0 k2 exp=0 raw=0 v={"w":2}'},
+                     {"do": "await", "thread": "D", "point": "feed.deliver"},
+                     {"do": "spawn", "thread": "S", "line": "stopfeed f0"}, {"do": "sleep", "ms": 60},
+                     {"do": "release", "thread": "D"}, {"do": "join", "thread": "S"}],
+             observe=["feedstat f0"],
+             expect=[(0, r"afterterm=[01] afterdone=0 done=true", "after its terminator was closed a live feed delivered more than the one event already pulled, or did not end")]),
+    ],
     "C15": [
+        dict(name="write-in-the-same-clock-tick-lands-while-a-dump-run-is-delivering", kind="mem",
+             setup=["clock t=2097152", 'set c0 k1 exp=0 raw=0 v={"w":1}'],
+             threads={},
+             script=[{"do": "claim", "thread": "D", "point": "feed.deliver"}, {"do": "park", "thread": "D", "point": "feed.deliver", "nth": 2},
+                     {"do": "spawn", "thread": "F", "line": "feed fr c0 bf=resume prefix=cp dump=1"},
+                     {"do": "await", "thread": "D", "point": "feed.deliver"},
+                     {"do": "run", "line": 'set c0 k2 exp=0 raw=0 v={"w":2}'},
+                     {"do": "release", "thread": "D"}, {"do": "join", "thread": "F"}],
+             observe=["drain fr", "feed fr c0 bf=resume prefix=cp dump=1", "drain fr"],
+             expect=[(2, r"k=k2;", "the document written (CAS = checkpoint + 1) while the first run was delivering is delivered by no later run")]),
         dict(name="checkpoint-skips-a-write-overtaken-by-a-later-one", setup=["feed fr c0 bf=resume prefix=cp", "clock t=2097152"],
              threads={"A": 'set c0 k1 exp=0 raw=0 v={"w":1}'},
              script=[{"do": "park", "thread": "A", "point": "post.before"}, {"do": "spawn", "thread": "A", "line": 'set c0 k1 exp=0 raw=0 v={"w":1}'},
